@@ -1501,6 +1501,11 @@ pub fn check(ctx: &CheckCtx) -> Option<Found> {
             return Some(f);
         }
     }
+    if t == Tier::Thorough {
+        if let Some(f) = crate::fuzz::campaign(ctx, &fuzz_subs(ctx), 400_000, 16) {
+            return Some(f);
+        }
+    }
     // every executed sequence up to the depth given, per configuration:
     // (embedding, kind, start, depth quick, depth thorough, core alphabet?)
     let deadline = Instant::now() + Duration::from_secs(t.pick(60, 420));
@@ -1536,6 +1541,14 @@ pub fn check(ctx: &CheckCtx) -> Option<Found> {
         }
     }
     None
+}
+
+pub fn fuzz_subs(ctx: &CheckCtx) -> Vec<crate::fuzz::FuzzSub> {
+    let avoid = ctx.known_open(SIG_F11);
+    vec![
+        crate::fuzz::sub("hist", case_strategy(14, avoid), move |c: &Case| run_case_with(c, avoid)),
+        crate::fuzz::sub("hist_long", case_strategy(30, avoid), move |c: &Case| run_case_with(c, avoid)),
+    ]
 }
 
 pub fn replay(_ctx: &CheckCtx, _sub: &str, case: serde_json::Value) -> Result<Option<Violation>, String> {
